@@ -63,6 +63,20 @@ PROPS = {
     'C15': dict(quick=dict(profiles=[seq('C15', 160, 40)]), thorough=dict(profiles=[seq('C15', 3200, 100)])),
     'C16': dict(quick=dict(profiles=[seq('C16', 160, 40)]), thorough=dict(profiles=[seq('C16', 3200, 100)])),
     'C17': dict(quick=dict(profiles=[seq('C17', 160, 40)]), thorough=dict(profiles=[seq('C17', 3200, 100)])),
+    'C18': dict(quick=dict(profiles=[prof('notify', 480, 18), prof('blocking', 160, 24)]),
+                thorough=dict(profiles=[prof('notify', 16000, 28), prof('blocking', 3200, 40)]),
+                rule="(a) schedules of Wait/Set/Close calls on the real notify.Offset driven instruction by instruction through the verif pause points "
+                     "(token taken / probed / released / stored / closed): a controller picks which goroutine runs next, cancels contexts and spawns "
+                     "calls; after every event the status of every call (held at a pause point, blocked in the library, returned with which result) is "
+                     "compared with the Lean interleaving model under the same schedule; (b) the real BlockingLog with up to 8 waiters in "
+                     "ConsumeBlocking/ConsumeByKeyBlocking (offsets relative, below, at and beyond NextOffset), publishes (also empty), deletes, reads, "
+                     "GC, cancellations and Close issued one at a time, observed at quiescence: who returned with what (judged as a Consume/"
+                     "ConsumeByKey result at that moment) and who is still blocked; a case is one schedule, non-trivial when some waiter blocked and some "
+                     "waiter returned",
+                assumptions=["Go channel semantics (buffered channel of capacity 1 as a token, close wakes all receivers, select picks any ready case) are the "
+                             "parameters of the model (trusted)",
+                             "quiescence is observed by polling with a grace period of 3 s for calls that are due to return",
+                             "free-running publishers concurrent with waiters are exercised under C08's free profile, judged there"]),
     'C19': dict(quick=dict(profiles=[prof('lock', 1600, 12), seq('C19', 48, 24)]), thorough=dict(profiles=[prof('lock', 40000, 16), seq('C19', 800, 50)])),
     'C20': dict(quick=dict(profiles=[seq('C20', 128, 30)]), thorough=dict(profiles=[seq('C20', 2400, 60)])),
 }
